@@ -4,6 +4,7 @@ C10 — Gzip transparency and integrity. The glue of go/gzip/gzip.go around comp
 -/
 import OAP.Model.Frame
 import OAP.Proofs.Frame
+import OAP.Model.PoolGzip
 namespace OAP.C10
 open OAP OAP.Frame
 
@@ -200,5 +201,133 @@ example :
 is what the first and third example show -/
 example : relayed.gzip = true ∧ gzipCond .v1 0 relayed.body.length = false ∧ gzipCond .v2 0 relayed.body.length = false ∧
     (pack .v1 idGz relayed 0).isOk = true := by decide
+
+end OAP.C10
+
+/-! ## concurrent use of the pooled compressors (Pool view)
+
+"… ALSO UNDER CONCURRENT USE: N goroutines sharing the pooled compressors/decompressors get the same results as
+sequential calls." Small-step interleaving model `OAP.Pool` (generic) with the instances `PoolGzip.WB` (writer pool)
+and `PoolGzip.RB` (reader pool); the theorems quantify over EVERY interleaving (`acts`) and EVERY initial pool content. -/
+namespace OAP.C10
+open OAP OAP.Frame OAP.Pool OAP.PoolGzip
+
+/-- `pool_exclusive`, generic: any pooled object whose `Reset` erases (`ResetErases`), any number of threads, any
+interleaving of their get / reset / use / park / resume / finish(put or drop) steps and of the pool's own drops, any
+initial pool (`InitOk`: no duplicates, identities below the allocation counter) with ARBITRARY stale object states:
+a thread that has finished the call `Reset(i); use u₁ … use uₖ` has returned `seqResult i [u₁ … uₖ]`, the result of
+that call made alone on a fresh object. -/
+theorem pool_exclusive {σ In U Out : Type} (B : Beh σ In U Out) (he : B.ResetErases)
+    (pool : List Nat) (obj : Nat → σ) (next : Nat) (h0 : InitOk pool next)
+    (acts : List (Act In U)) (s : St σ In U Out) (h : Pool.run B (Pool.init pool obj next) acts = some s)
+    (t : Nat) (i : In) (us : List U) (out : Out) (hf : s.pc t = .fin i us out) : out = B.seqResult i us :=
+  Pool.pool_exclusive B he pool obj next h0 acts s h t i us out hf
+
+/-- the ownership half: in every reachable state no two threads hold the same object, a held object is not in the
+pool, and the pool holds no object twice -/
+theorem no_shared_object {σ In U Out : Type} (B : Beh σ In U Out) (he : B.ResetErases)
+    (pool : List Nat) (obj : Nat → σ) (next : Nat) (h0 : InitOk pool next)
+    (acts : List (Act In U)) (s : St σ In U Out) (h : Pool.run B (Pool.init pool obj next) acts = some s) :
+    (∀ t u o, t ≠ u → (s.pc t).holds = some o → (s.pc u).holds ≠ some o) ∧
+    (∀ t o, (s.pc t).holds = some o → o ∉ s.pool) ∧ s.pool.Nodup :=
+  Pool.no_shared_object B he pool obj next h0 acts s h
+
+/-- "the same results as sequential calls", literally: for any list of calls by distinct threads the SERIAL schedule
+(one call after the other, all on one recycled object) is a run, and a thread that has finished one of these calls in
+an arbitrary interleaving is in the same final state — same input, same uses, same result — as in the serial run -/
+theorem concurrent_eq_serial {σ In U Out : Type} (B : Beh σ In U Out) (he : B.ResetErases)
+    (pool : List Nat) (obj : Nat → σ) (next : Nat) (h0 : InitOk pool next)
+    (acts : List (Act In U)) (s : St σ In U Out) (h : Pool.run B (Pool.init pool obj next) acts = some s)
+    (cs : List (Call In U)) (hnd : (cs.map (·.1)).Nodup) (c : Call In U) (hc : c ∈ cs) (out : Out)
+    (hf : s.pc c.1 = .fin c.2.1 c.2.2 out) :
+    ∃ s', Pool.run B (Pool.init pool obj next) (serialActs next cs) = some s' ∧ s'.pc c.1 = s.pc c.1 :=
+  Pool.concurrent_eq_serial B he pool obj next h0 acts s h cs hnd c hc out hf
+
+/-- N concurrent `gzip.Compress` calls over the shared `poolCompressor`: each returns `gz.compress` of ITS input (of
+the concatenation of its writes), and no two of them ever hold the same writer -/
+theorem compress_concurrent_eq_seq (gz : GzOracle) (pool : List Nat) (obj : Nat → Bytes) (next : Nat)
+    (h0 : InitOk pool next) (acts : List (Act Unit Bytes)) (s : St Bytes Unit Bytes (Res Bytes))
+    (h : Pool.run (WB gz) (Pool.init pool obj next) acts = some s) :
+    (∀ t x out, s.pc t = .fin () [x] out → out = gz.compress x) ∧
+    (∀ t ps out, s.pc t = .fin () ps out → out = gz.compress ps.flatten) ∧
+    (∀ t u o, t ≠ u → (s.pc t).holds = some o → (s.pc u).holds ≠ some o) :=
+  PoolGzip.compress_concurrent_eq_seq gz pool obj next h0 acts s h
+
+/-- N concurrent `gzip.Decompress` calls over the shared `poolDecompressor` — readers put back on EOF and after a
+failed Reset, DROPPED after a stream error: each returns its sequential result; one that ran to its end (`Done`: what
+`ReadFrom` does) returns `Gzip.decompress gz` of ITS input, however its reads were chunked -/
+theorem decompress_concurrent_eq_seq (gz : GzOracle) (pool : List Nat) (obj : Nat → RState) (next : Nat)
+    (h0 : InitOk pool next) (acts : List (Act Bytes Nat)) (s : St RState Bytes Nat (Res Bytes))
+    (h : Pool.run (RB gz) (Pool.init pool obj next) acts = some s) :
+    (∀ t src ns out, s.pc t = .fin src ns out → out = (RB gz).seqResult src ns) ∧
+    (∀ t src ns out, s.pc t = .fin src ns out → Done gz src ns → out = Gzip.decompress gz src) ∧
+    (∀ t u o, t ≠ u → (s.pc t).holds = some o → (s.pc u).holds ≠ some o) :=
+  PoolGzip.decompress_concurrent_eq_seq gz pool obj next h0 acts s h
+
+/-- Compress followed by Decompress is the identity also when both run among concurrent users of the two pools -/
+theorem roundtrip_concurrent (gz : GzOracle) (hs : gz.Sound)
+    (pool : List Nat) (obj : Nat → Bytes) (next : Nat) (h0 : InitOk pool next)
+    (acts : List (Act Unit Bytes)) (s : St Bytes Unit Bytes (Res Bytes))
+    (h : Pool.run (WB gz) (Pool.init pool obj next) acts = some s)
+    (pool' : List Nat) (obj' : Nat → RState) (next' : Nat) (h0' : InitOk pool' next')
+    (acts' : List (Act Bytes Nat)) (s' : St RState Bytes Nat (Res Bytes))
+    (h' : Pool.run (RB gz) (Pool.init pool' obj' next') acts' = some s')
+    (t t' : Nat) (x c : Bytes) (ns : List Nat) (out : Res Bytes)
+    (hf : s.pc t = .fin () [x] (.ok c)) (hf' : s'.pc t' = .fin c ns out) (hd : Done gz c ns) : out = .ok x :=
+  PoolGzip.roundtrip_concurrent gz hs pool obj next h0 acts s h pool' obj' next' h0' acts' s' h' t t' x c ns out hf hf' hd
+
+/-- the theorem is not vacuous and its hypotheses are needed: each of the four classic pool bugs is expressible in the
+model and breaks it on a concrete run (decided) — a double `Put`, a `Put` before the last use, a `Reset` that keeps
+one field, a `New` that hands out one shared object -/
+theorem pool_bugs_break_it :
+    -- double put: two threads hold object 0 at once
+    (runWith (stepDoublePut accB) emptyInit
+      [.get 0 5 none, .reset 0, .finish 0 true, .get 1 1 (some 0), .get 2 2 (some 0)]).map
+        (fun s => ((s.pc 1).holds, (s.pc 2).holds)) = some (some 0, some 0) ∧
+    -- use after put: thread 0 returns 205 for a call whose result alone is 105
+    ((runWith (stepEarlyPut accB) emptyInit
+      [.get 0 1 none, .reset 0, .get 1 2 (some 0), .reset 1, .use 0 5, .finish 0 true]).map (fun s => s.pc 0) =
+        some (.fin 1 [5] 205) ∧ accB.seqResult 1 [5] = 105) ∧
+    -- stale reset: the same call returns 145 on one recycled object and 135 on another
+    ((Pool.run leakyB demoInit [.get 0 1 (some 0), .reset 0, .use 0 5, .finish 0 true]).map (fun s => s.pc 0) =
+        some (.fin 1 [5] 145) ∧
+     (Pool.run leakyB demoInit [.get 0 1 (some 1), .reset 0, .use 0 5, .finish 0 true]).map (fun s => s.pc 0) =
+        some (.fin 1 [5] 135)) ∧
+    -- shared New: two misses hand out the same object
+    (runWith (stepSharedNew accB) emptyInit [.get 0 1 none, .get 1 2 none]).map
+        (fun s => ((s.pc 0).holds, (s.pc 1).holds)) = some (some 0, some 0) :=
+  ⟨double_put_breaks.1, ⟨use_after_put_breaks.2.1, use_after_put_breaks.2.2⟩,
+   ⟨stale_reset_breaks.1, stale_reset_breaks.2.1⟩, shared_new_breaks.1⟩
+
+/-- T2 structure facts, regenerated from go/gzip/gzip.go on every run: the statements of the eight functions that
+touch the two pools, each the model step named in `OAP.Model.PoolGzip`.
+`compressor.Compress`: `Get` (model `get`: hit or miss) then `z.Writer.Reset(w)` (model `reset`; `ResetErases` is the
+  assumption on compress/gzip) — nothing between them, the writer is not touched before its Reset.
+`writer.Close`: `defer z.pool.Put(z)` + `return z.Writer.Close()`: model `finish … true` — ONE Put per Close, after the
+  stream is finished, on every path.
+`compressor.Decompress`: `Get`; miss (`!inPool`, this pool has no `New`) → `gzip.NewReader(r)` = model `get none` + `reset`,
+  on error `return nil, err` with nothing pooled (`finish … false`); hit → `z.Reset(r)` (model `reset`), on error
+  `c.poolDecompressor.Put(z)` + return (`finish … true`: put back on a Reset error).
+`reader.Read`: the underlying Read (model `use`), then `if err == io.EOF { z.pool.Put(z) }` — Put on io.EOF ONLY
+  (`finish … true`); with any other error the reader is never put (`finish … false`: dropped).
+`Compress`: a new private buffer, `defaultCompressor.Compress(buf)`, ONE `z.Write(in)`, ONE `z.Close()`, then
+  `buf.Bytes()`: the call `Reset; use in; finish` of `compress_concurrent_eq_seq`; the writer does not escape.
+`Decompress`: `defaultCompressor.Decompress(r)` then `buf.ReadFrom(or)` — which returns at the first io.EOF or error, so
+  `Read` is not called again after the Put (no double put, no use after put); the reader does not escape.
+`init` / `SetLevel`: `poolCompressor.New` is a closure whose body is `return &writer{Writer: gzip.NewWriter(…), …}` /
+  `w, err := gzip.NewWriterLevel(…) … return &writer{Writer: w, …}`: the writer is allocated INSIDE the closure, at every
+  call — the model's fresh identities (`get … none` hands out `next`, invariant clauses `poolLt` / `heldLt`); a closure
+  returning a captured writer would be `Pool.stepSharedNew`, for which the theorem fails (`shared_new_breaks`).
+  (`SetLevel` replaces `New` only — documented "not thread-safe, init time only"; the pooled writers keep their level.) -/
+theorem pool_source :
+    Gen.stmts_gzip_compressor_Compress = ["z := c.poolCompressor.Get().(*writer)", "z.Writer.Reset(w)", "return z, nil"] ∧
+    Gen.stmts_gzip_writer_Close = ["defer z.pool.Put(z)", "return z.Writer.Close()"] ∧
+    Gen.stmts_gzip_compressor_Decompress = ["z, inPool := c.poolDecompressor.Get().(*reader)", "if !inPool { newZ, err := gzip.NewReader(r) if err != nil { return nil, err } return &reader{Reader: newZ, pool: &c.poolDecompressor}, nil }", "if err := z.Reset(r); err != nil { c.poolDecompressor.Put(z) return nil, err }", "return z, nil"] ∧
+    Gen.stmts_gzip_reader_Read = ["n, err = z.Reader.Read(p)", "if err == io.EOF { z.pool.Put(z) }", "return n, err"] ∧
+    Gen.stmts_gzip_Compress = ["buf := &bytes.Buffer{}", "var z io.WriteCloser", "if z, err = defaultCompressor.Compress(buf); err != nil { err = errors.Wrap(err, \"create gzip writer\") return }", "if _, err = z.Write(in); err != nil { err = errors.Wrap(err, \"compress data\") return }", "if err = z.Close(); err != nil { err = errors.Wrap(err, \"finish gzip compress\") return }", "out = buf.Bytes()", "return"] ∧
+    Gen.stmts_gzip_Decompress = ["r := bytes.NewReader(in)", "var or io.Reader", "if or, err = defaultCompressor.Decompress(r); err != nil { err = errors.Wrap(err, \"create gzip reader\") return }", "dsize := defaultCompressor.DecompressedSize(in)", "if max := len(in) * maxExpansionRatio; dsize < 0 || dsize > max { dsize = max }", "buf := bytes.NewBuffer(make([]byte, 0, dsize+bytes.MinRead))", "var rn int64", "rn, err = buf.ReadFrom(or)", "n = int(rn)", "out = buf.Bytes()", "return"] ∧
+    Gen.stmts_gzip_SetLevel = ["if level < gzip.DefaultCompression || level > gzip.BestCompression { return fmt.Errorf(\"grpc: invalid gzip compression level: %d\", level) }", "defaultCompressor.poolCompressor.New = func() interface{} { w, err := gzip.NewWriterLevel(ioutil.Discard, level) if err != nil { panic(err) } return &writer{Writer: w, pool: &defaultCompressor.poolCompressor} }", "return nil"] ∧
+    Gen.stmts_gzip_init = ["defaultCompressor = &compressor{}", "defaultCompressor.poolCompressor.New = func() interface{} { return &writer{Writer: gzip.NewWriter(ioutil.Discard), pool: &defaultCompressor.poolCompressor} }"] :=
+  ⟨rfl, rfl, rfl, rfl, rfl, rfl, rfl, rfl⟩
 
 end OAP.C10
